@@ -217,13 +217,17 @@ const (
 var zzQtypes = []uint16{dns.TypeTXT, dns.TypeA, dns.TypeNS, dns.TypeSOA, dns.TypeANY, dns.TypeAAAA}
 
 // zzStore fills the store with up to E entries; entry 0's label has the length of the queried label (so that it may or
-// may not be the queried one), entry 1's label has an arbitrary length up to L.
-func zzStore(kv *zzKV, E, V, qlen, L int) (labels []string) {
+// may not be the queried one) and up to V values, later entries have labels of any length up to L and up to V2 values.
+func zzStore(kv *zzKV, E, V, V2, qlen, L int) (labels []string) {
 	ne := rt.Choose("entries", E+1)
 	for e := 0; e < ne; e++ {
 		n := qlen
-		if e > 0 || n == 0 {
+		if n == 0 {
+			n = 1
+		}
+		if e > 0 {
 			n = 1 + rt.Choose("storedlen", L)
+			V = V2
 		}
 		lab := zzStoredLabel("stored", n)
 		for _, prev := range labels {
@@ -242,6 +246,13 @@ func zzStore(kv *zzKV, E, V, qlen, L int) (labels []string) {
 		kv.vals = append(kv.vals, vals)
 	}
 	return labels
+}
+
+func zzMinInt(a, b int) int {
+	if a < b {
+		return a
+	}
+	return b
 }
 
 // zzCountTXT: how many answers are TXT records for `name` carrying exactly the one string v.
@@ -308,7 +319,11 @@ func zzAnswer(shape int) {
 	} else if shape == zzGlued && len(label) > 1 {
 		qlen = len(label) - 1
 	}
-	labels := zzStore(kv, rt.Bound("E"), rt.Bound("V"), qlen, L)
+	E, V, V2 := rt.Bound("E"), rt.Bound("V"), rt.Bound("V2")
+	if qtype != dns.TypeTXT { // storage is only relevant to TXT: keep a small store so that a leak would still show
+		E, V = zzMinInt(E, 1), 1
+	}
+	labels := zzStore(kv, E, V, V2, qlen, L)
 	kv.fail = rt.Bool("storage-fails")
 
 	m := zzQuery(d, name, qtype)
